@@ -66,8 +66,29 @@ def gen_n(rng):
     return int(rng.choice([2, 3, 4, 5, 8, 10, 16, 64, int(rng.integers(2, 65))]))
 
 
-def run(kind, x, y, n, kw):
-    return cls(kind)(x, y, n, **kw).rfa()
+def run(kind, x, y, n, kw, rng=None):
+    """construct the strategy object and ask it; when an rng is given, in a quarter of the cases another object of the
+    SAME class (other data, other factor, other parameters) is constructed - and sometimes used - in between: objects
+    must not share state through their class"""
+    obj = cls(kind)(x, y, n, **kw)
+    if rng is not None and rng.integers(0, 4) == 0:
+        n2 = gen_n(rng)
+        kw2, _a = gen_params(rng, kind, n2)
+        x2, y2, _m = gen_series(rng, 2, 12)
+        other = cls(kind)(x2, y2, n2, **kw2)
+        if rng.integers(0, 2):
+            other.rfa()
+    return obj.rfa()
+
+
+def narrow_series(rng, x, y, meta):
+    """sometimes hand the averages over as float32 / float16 (e.g. a pandas float32 column); the series judged is the
+    float64 image of what the narrow array holds; x keeps strictly increasing or the case stays float64"""
+    yn, yimg, name = gen.narrow(rng, y)
+    if name != "float64" and meta.get("ycls") in ("near_ties", "pico", "tiny", "large"):
+        return x, y, y
+    meta["y_dtype"] = name
+    return x, yn, yimg
 
 
 def brief(kind, x, y, n, kw, meta=None):
